@@ -131,6 +131,14 @@ impl Project for cascette_formats::tvfs::TvfsFile {
             self.est_table.as_ref().map(|e| &e.specs)
         )
     }
+    fn diagnose(&self) -> Option<&'static str> {
+        // an EST size field that disagrees with the NUL-terminated strings actually parsed
+        let est_len: Option<usize> = self.est_table.as_ref().map(|e| e.specs.iter().map(|s| s.len() + 1).sum());
+        match (self.header.est_table_size, est_len) {
+            (Some(sz), Some(len)) if sz as usize != len => Some("est-table-size-field-inconsistent-with-its-strings"),
+            _ => None,
+        }
+    }
 }
 
 impl Project for cascette_formats::patch_archive::PatchArchive {
@@ -146,8 +154,16 @@ impl Project for cascette_formats::patch_archive::PatchArchive {
         )
     }
     fn diagnose(&self) -> Option<&'static str> {
-        // build() recomputes the flags byte from the presence of encoding info (bit 0x02) only
-        if self.header.flags & !0x02 != 0 { Some("header-flag-bits-other-than-0x02-dropped-on-rebuild") } else { None }
+        let h = &self.header;
+        if h.file_key_size != 16 || h.old_key_size != 16 || h.patch_key_size != 16 {
+            // build() always writes 16-byte keys
+            Some("key-size-other-than-16-rebuilt-as-16")
+        } else if h.flags & !0x02 != 0 {
+            // build() recomputes the flags byte from the presence of encoding info (bit 0x02) only
+            Some("header-flag-bits-other-than-0x02-dropped-on-rebuild")
+        } else {
+            None
+        }
     }
 }
 impl Project for cascette_formats::patch_index::PatchIndex {
